@@ -51,6 +51,8 @@ class E1:
         self.run_count = 0
         self.stepped = []
         self.max_started_end = float('-inf')
+        self.max_clock = 0
+        self.others = []
 
     # ------------------------------------------------------------------------------------ helpers
     def bad(self, oracle, msg):
@@ -139,6 +141,16 @@ class E1:
                 for r in self.recs:
                     if r.asset == a and r.state in ('q', 'p'):
                         r.cancelled = True
+        elif k == 'env2':
+            # another Environment comes to life in the same process and is used a little: none of this one's business
+            other = Environment()
+            self.others.append(other)
+            for a in (0, 1, 2, 3, 9):
+                other.schedule_event(1, a, lambda: None)
+                other.pause_matching_events(a)
+                other.unpause_matching_events(a)
+            for o in self.others[:-1]:
+                o.unpause_matching_events(op[1] if len(op) > 1 else 1)
         elif k == 'again':
             # Event.execute() called a second time on an already executed event: the action must not run again
             done = [r for r in self.recs if r.state == 'x' and r.ev is not None]
@@ -190,6 +202,7 @@ class E1:
         self._orig_step()
         PROGRESS[0] += 1
         self.c['dispatches'] += 1
+        self.max_clock = max(self.max_clock, env.now)
         inner = set(self.stepped[mark:])       # events dispatched by runs nested inside this step's action
         if env.now < now_before and not inner:
             self.bad('C01.clock', f'clock went backwards from {now_before} to {env.now}')
@@ -246,6 +259,10 @@ class E1:
         env.run(d)
         self.run_count += 1
         self.c['runs'] += 1
+        if env.now < self.max_clock:
+            self.bad('C01.clock', f'run({d}) started at {t0} returned with the clock at {env.now} although the clock had '
+                     f'already reached {self.max_clock} (a run nested in an event action went further): the clock decreased')
+        self.max_clock = max(self.max_clock, env.now)
         # did a run nested (at any depth) in this one end after this one's end? then this run's clock legitimately
         # lies beyond its own end when it returns
         went_beyond = self.max_started_end > end
